@@ -165,6 +165,20 @@ def _collapse(obs, drop_pinmode=True, drop_reads=False, side="host"):
     return res
 
 
+def _merge_delays(obs):
+    """Adjacent waits (nothing observable between them) become one wait (t, 'DELAY', total, count): each of them may lose < 1 ms on the device."""
+    out = []
+    for o in obs:
+        if o[1] == "DELAY" and out and out[-1][1] == "DELAY":
+            p = out[-1]
+            out[-1] = (p[0], "DELAY", p[2] + o[2], p[3] + 1)
+        elif o[1] == "DELAY":
+            out.append((o[0], "DELAY", o[2], 1))
+        else:
+            out.append(o)
+    return out
+
+
 def compare(host_events, trace, *, motor_duty_tol=1, ignore_initial_servo=True):
     """Return None if equivalent, else a short description of the first divergence.
 
@@ -172,20 +186,35 @@ def compare(host_events, trace, *, motor_duty_tol=1, ignore_initial_servo=True):
     on the device (delay(0) / skipped call); otherwise paired delays must agree to within 1 ms.  Event times must agree
     to within 1 ms per delay seen so far.
     """
-    h = _collapse(host_obs(host_events), side="host")
-    f = _collapse(fw_obs(trace), side="fw")
+    h = _merge_delays(_collapse(host_obs(host_events), side="host"))
+    f = _merge_delays(_collapse(fw_obs(trace), side="fw"))
     i = j = 0
     delays = 0
     step = 0
+    last_f = {}      # pin -> last firmware level matched
+    last_hx = {}     # pin -> last exact host duty matched (motor enable pins)
     while i < len(h) and j < len(f):
         ho, fo = h[i], f[j]
-        if ho[1] == "DELAY" and ho[2] < 1.0 and (fo[1] != "DELAY" or abs(ho[2] - fo[2]) >= 1.0):
-            delays += 1
+        nh = ho[3] if ho[1] == "DELAY" else 0
+        nf = fo[3] if fo[1] == "DELAY" else 0
+        if ho[1] == "DELAY" and ho[2] < 1.0 * nh and (fo[1] != "DELAY" or abs(ho[2] - fo[2]) >= 1.0 * max(nh, nf)):
+            # every wait of this run is below 1 ms: the device may have rounded all of them away
+            delays += nh
             i += 1
             continue
         if fo[1] == "DELAY" and fo[2] <= 1 and ho[1] != "DELAY":
             # the device may round a sub-millisecond wait up to 1 ms where the host model skipped it entirely: not granted
             return f"event {step}: host {_fmt(ho)} vs firmware {_fmt(fo)}"
+        # motor duty is compared to +-1 count, and both sides drop writes that repeat a level: a step that changes the integer duty on
+        # one side only (236.4999 / 236.5001) is an extra event there, not a divergence
+        if ho[1] == "PIN" and len(ho) > 4 and (fo[1] != "PIN" or fo[2] != ho[2]) and ho[2] in last_f and abs(ho[4] - last_f[ho[2]]) <= motor_duty_tol + 0.5:
+            last_hx[ho[2]] = ho[4]
+            i += 1
+            continue
+        if fo[1] == "PIN" and fo[2] in last_hx and (ho[1] != "PIN" or ho[2] != fo[2]) and abs(last_hx[fo[2]] - fo[3]) <= motor_duty_tol + 0.5:
+            last_f[fo[2]] = fo[3]
+            j += 1
+            continue
         if ho[1] != fo[1]:
             return f"event {step}: host {_fmt(ho)} vs firmware {_fmt(fo)}"
         k = ho[1]
@@ -195,13 +224,17 @@ def compare(host_events, trace, *, motor_duty_tol=1, ignore_initial_servo=True):
         elif k == "SER":
             ok = ser_equal(ho[2], ho[3], fo[2])
         elif k == "DELAY":
-            delays += 1
-            ok = abs(ho[2] - fo[2]) < 1.0
+            delays += max(nh, nf)
+            ok = abs(ho[2] - fo[2]) < 1.0 * max(nh, nf)
         elif k == "PIN":
             if len(ho) > 4:  # motor duty with tolerance
                 ok = ho[2] == fo[2] and abs(ho[4] - fo[3]) <= motor_duty_tol + 0.5
+                if ok:
+                    last_hx[ho[2]] = ho[4]
             else:
                 ok = ho[2] == fo[2] and ho[3] == fo[3]
+            if ok:
+                last_f[fo[2]] = fo[3]
         elif k == "READ":
             ok = tuple(ho[2:5]) == tuple(fo[2:5])
         elif k == "SERVO":
@@ -225,8 +258,11 @@ def compare(host_events, trace, *, motor_duty_tol=1, ignore_initial_servo=True):
         i += 1
         j += 1
         step += 1
-    while i < len(h) and h[i][1] == "DELAY" and h[i][2] < 1.0:
+    while i < len(h) and ((h[i][1] == "DELAY" and h[i][2] < 1.0 * h[i][3]) or
+                          (h[i][1] == "PIN" and len(h[i]) > 4 and h[i][2] in last_f and abs(h[i][4] - last_f[h[i][2]]) <= motor_duty_tol + 0.5)):
         i += 1
+    while j < len(f) and f[j][1] == "PIN" and f[j][2] in last_hx and abs(last_hx[f[j][2]] - f[j][3]) <= motor_duty_tol + 0.5:
+        j += 1
     if i < len(h) or j < len(f):
         extra = h[i] if i < len(h) else f[j]
         side = "host" if i < len(h) else "firmware"
